@@ -770,7 +770,10 @@ func (e *Evaluator) evalBinaryExpr(expr *ExprBinary) (*Cell, error) {
 		}
 		return NewCell(v), nil
 	case Equal:
-		return e.evalAssignment(expr, left, right)
+		// the value being assigned is the one the right hand side had when it was
+		// evaluated: it may be the very cell that creating the target is about to
+		// clear or turn into a container (a[1] = a[1] = 3, a[5].k = a[5] = null)
+		return e.evalAssignment(expr, left, &Cell{Value: right.Value})
 	default:
 		return nil, e.error(expr.OpToken, fmt.Sprintf("unknown operator %s", expr.OpToken.Tag))
 	}
